@@ -1400,6 +1400,18 @@ impl<'a, SE: extensions::ShellExtensions> WordExpander<'a, SE> {
                             end_offset
                         }
                     } else {
+                        // For arrays and positional parameters a negative length is an
+                        // error, unless the start already lies beyond the last element.
+                        if expanded_length < 0
+                            && !offset_out_of_range
+                            && expanded_offset < expanded_parameter_len
+                        {
+                            return Err(error::ErrorKind::BadSubstitution(std::format!(
+                                "{expanded_length}: substring expression < 0"
+                            ))
+                            .into());
+                        }
+
                         let expanded_length = min(
                             max(expanded_length, 0),
                             expanded_parameter_len - expanded_offset,
